@@ -5,6 +5,7 @@ from props import pipeline
 from vlib import ledger, workload
 
 ASSUMPTIONS = [
+    "supplies are taken from a deep copy of the dictionaries made at the entry of ScenarioRunner.run_optimizer, before the Optimizer object exists; the dictionaries the optimiser holds afterwards must still be equal to it",
     "variable values are read after the last (smoothing) solve, i.e. the allocation the extractor reports",
     "tolerance |residual| <= 1e-5 + 2e-6*scale (scale = cumulative supply / largest monthly supply of the ledger row)",
     "a run that raises contributes only the LPs solved before the exception",
@@ -20,6 +21,10 @@ def monitor(tr, case):
     lps = []
     for k, lp in enumerate(tr.lps):
         v, st = ledger.audit(lp)
+        ch = getattr(lp, "inputs_changed", None)
+        if ch:
+            # the ledger above is audited against the supplies as handed over; the optimiser must not have worked from others
+            v.append({"mech": "optimiser_changed_the_supplies_it_was_given", "msg": "between hand-over and solve these inputs changed: %s" % ch[:5], "data": {"changed": ch[:8]}})
         for x in v:
             x["data"].update(iso=case["iso"], round=k + 1, tag=case.get("tag"))
             x["msg"] = "%s round %d (%s): %s" % (case["iso"], k + 1, lp.kind, x["msg"])
